@@ -23,11 +23,20 @@ func (l vLister) ListCompleted(ctx context.Context) ([]discovery.SegmentRef, err
 	refs := make([]discovery.SegmentRef, 0, len(segs))
 	for i, s := range segs {
 		topic, part := vTopic(s.tp)
-		base := int64(0)
-		if len(s.offs) > 0 {
-			base = s.offs[0]
+		base := vBase(segs, i)
+		ref := discovery.SegmentRef{Topic: topic, Partition: part, BaseOffset: base, SegmentKey: vSegKey(i), IndexKey: vSegKey(i) + ".index"}
+		// offset statistics as the real s3Lister / time index fill them in (see vStats)
+		if min, hasMin, max, hasMax := vStats(l.h.c.stats, segs, i); hasMin || hasMax {
+			if hasMin {
+				v := min
+				ref.MinOffset = &v
+			}
+			if hasMax {
+				v := max
+				ref.MaxOffset = &v
+			}
 		}
-		refs = append(refs, discovery.SegmentRef{Topic: topic, Partition: part, BaseOffset: base, SegmentKey: vSegKey(i), IndexKey: vSegKey(i) + ".index"})
+		refs = append(refs, ref)
 	}
 	return refs, nil
 }
